@@ -604,4 +604,39 @@ theorem C13_struct_truncation_rejected (k : Kind) (vs : List Val) (hwf : WF (sch
     simp only [Option.some.injEq, Prod.mk.injEq, List.append_eq_nil_iff] at rt
     exact absurd rt.2.2 hs
 
+/-- **C01 / C09, port normalisation**: every node state `readRemoteState` hands to the merge carries a
+non-zero port (the configured one where the wire had none), so a port-less entry is the *same* address
+as the one a member already holds with the configured port - never a "different address" that would
+take the name-reclaim path around the incarnation check. -/
+theorem C01_remote_state_ports_normalised (bindPort : Nat) (all : Bool) (hb : bindPort ≠ 0) (st : List Val)
+    (hwf : WF (schema .pushNodeState) st) :
+    ∃ a i m n p s v, normState bindPort all st = [a, i, m, n, .uint p, s, v] ∧ p ≠ 0 ∧
+      (st = [a, i, m, n, .uint (if p = bindPort then (match st with | [_, _, _, _, .uint q, _, _] => q | _ => 0) else p), s, v]) := by
+  match st, hwf with
+  | [a, i, m, n, .uint q, s, v], _ =>
+    refine ⟨a, i, m, n, (if all || q == 0 then bindPort else q), s, v, rfl, ?_, ?_⟩
+    · by_cases hq : q = 0
+      · simp [hq, hb]
+      · by_cases ha : all = true
+        · simp [ha, hb]
+        · simp [ha, hq]
+    · by_cases hc : (all || q == 0) = true
+      · simp [hc]
+      · simp only [hc]
+        by_cases he : q = bindPort
+        · simp [he]
+        · simp [he]
+  | [_, _, _, _, .int _, _, _], h => simp [WF, schema, fld, Val.ty] at h
+  | [_, _, _, _, .str _, _, _], h => simp [WF, schema, fld, Val.ty] at h
+  | [_, _, _, _, .bytes _, _, _], h => simp [WF, schema, fld, Val.ty] at h
+  | [_, _, _, _, .bool _, _, _], h => simp [WF, schema, fld, Val.ty] at h
+  | [], h => simp [WF, schema, fld] at h
+  | [_], h => simp [WF, schema, fld] at h
+  | [_, _], h => simp [WF, schema, fld] at h
+  | [_, _, _], h => simp [WF, schema, fld] at h
+  | [_, _, _, _], h => simp [WF, schema, fld] at h
+  | [_, _, _, _, _], h => simp [WF, schema, fld] at h
+  | [_, _, _, _, _, _], h => simp [WF, schema, fld] at h
+  | _ :: _ :: _ :: _ :: _ :: _ :: _ :: _ :: _, h => simp [WF, schema, fld] at h
+
 end Swim.Msgpack
